@@ -71,11 +71,11 @@ func c15NewElem(name string, doc map[string]any) (string, c15Elem) {
 	switch vh.Choose(name+"k", 4) {
 	case 0:
 		// letters, and digits that spell numbers which are also element values
-		s := string([]byte{vh.ByteFrom(name+"s", "015jk")})
+		s := string([]byte{vh.ByteFrom(name+"s", "05j")})
 		doc[name] = s
 		return "$." + name, c15Elem{kind: kStr, str: s}
 	case 1:
-		n := []float64{0, 1, 5, 10}[vh.Choose(name+"n", 4)]
+		n := []float64{0, 10}[vh.Choose(name+"n", 2)]
 		doc[name] = n
 		return "$." + name, c15Elem{kind: kNum, num: n}
 	case 2:
@@ -98,6 +98,7 @@ const (
 )
 
 var c15Idx = []int{-4, -1, 0, 1, 2, 4}
+var c15WIdx = []int{-4, -1, 0, 2, 4}
 
 // VHC15Sequence: k operations on one array living in a variable, in the document or
 // inside another container; result, contents and length printed after every step.
@@ -105,23 +106,39 @@ func VHC15Sequence() {
 	doc := map[string]any{}
 	home := vh.Choose("home", 3)
 	h := []string{"a", "$.arr", "o.l"}[home]
-	// initial contents: two symbolic strings
+	// initial contents: three symbolic strings; then a forced prelude of removals, so that
+	// the free operations start from an array that has been longer before (whatever the
+	// implementation keeps beyond the current length must stay invisible)
 	e0 := vh.Bytes("e0", 1)
 	e1 := vh.Bytes("e1", 1)
+	e2 := vh.Bytes("e2", 1)
 	vh.Assume(vh.And(vh.InRange(e0[0], 'j', 'm'), vh.InRange(e1[0], 'j', 'm')))
-	doc["e0"], doc["e1"] = e0, e1
-	doc["arr"] = []any{e0, e1}
-	list := []c15Elem{{kind: kStr, str: e0}, {kind: kStr, str: e1}}
-	prog := "{ a = [$.e0, $.e1]; o = {l: [$.e0, $.e1]}\n"
+	vh.Assume(vh.InRange(e2[0], 'j', 'm'))
+	doc["e0"], doc["e1"], doc["e2"] = e0, e1, e2
+	doc["arr"] = []any{e0, e1, e2}
+	list := []c15Elem{{kind: kStr, str: e0}, {kind: kStr, str: e1}, {kind: kStr, str: e2}}
+	prog := "{ a = [$.e0, $.e1, $.e2]; o = {l: [$.e0, $.e1, $.e2]}\n"
 	want := ""
-	k := 2
+	preludes := [][]int{{}, {oPop, oPop}, {oPopFirst, oPop}, {oPop}, {oPop, oPop, oPop}}
+	np := 3
 	if vh.Thorough() {
-		k = 3
+		np = 5
+	}
+	prelude := preludes[vh.Choose("prelude", np)]
+	k := len(prelude) + 2
+	if vh.Thorough() {
+		k = len(prelude) + 3
 	}
 	failed := false
 	for step := 0; step < k && !failed; step++ {
 		name := "x" + itoa(step)
-		switch vh.Choose("op"+itoa(step), nOps) {
+		op := 0
+		if step < len(prelude) {
+			op = prelude[step]
+		} else {
+			op = vh.Choose("op"+itoa(step), nOps)
+		}
+		switch op {
 		case oPush:
 			txt, e := c15NewElem(name, doc)
 			list = append(list, e)
@@ -213,7 +230,7 @@ func VHC15Sequence() {
 				want += list[j].render(true) + "\n"
 			}
 		case oWrite:
-			i := c15Idx[vh.Choose("i"+itoa(step), len(c15Idx))]
+			i := c15WIdx[vh.Choose("i"+itoa(step), len(c15WIdx))]
 			txt, e := c15NewElem(name, doc)
 			prog += h + "[" + itoa2(i) + "] = " + txt + "\n"
 			j := i
